@@ -9,7 +9,7 @@
    area by a triangle fan, common region by planar clipping). *)
 From Coq Require Import Reals ZArith List Bool Lra Lia PrimFloat.
 From PR Require Import Base.Num Base.RNum Base.F64 Model.SphPoly Model.SphTrigR Gen.GenC17
-     Proofs.C17_area Proofs.C17_setops Proofs.C17_walk Proofs.C17_gen.
+     Proofs.C17_area Proofs.C17_setops Proofs.C17_walk Proofs.C17_gen Proofs.C17_hist.
 Import ListNotations.
 Open Scope R_scope.
 
@@ -43,6 +43,26 @@ Theorem C17_invert_twice : forall (V : Type) (az : V -> V -> R) (vs : list V) (r
   inverse (inverse vs) = vs /\ area RO V az PI (inverse (inverse vs)) r = area RO V az PI vs r.
 Proof. intros. unfold inverse. rewrite rev_involutive. split; reflexivity. Qed.
 Print Assumptions C17_invert_twice.
+
+(* histories of calls on ONE object (area(), inverse(), invert() in any order and number): after every call the
+   object is the given polygon or its inverse, according to the parity of the invert() calls so far; inverse() and
+   area() leave the object alone; and whatever inverse() returned, at any point of the history, satisfies the 4 pi law
+   together with the object as it is at that point (so the law holds in either order of evaluation and on re-use) *)
+Theorem C17_history_state : forall (V : Type) (vs : list V) (h : list pop),
+  fold_left pstep h vs = (if Nat.even (inverts h) then vs else inverse vs) /\
+  pstep vs PInverse = vs /\ pstep vs PArea = vs.
+Proof. intros. split; [apply history_state | apply pure_calls]. Qed.
+Print Assumptions C17_history_state.
+Theorem C17_history_inverse_law : forall (V : Type) (az : V -> V -> R) (vs : list V) (r : R) (h : list pop),
+  nondegenerate V az vs ->
+  Forall (fun e => (fst e = vs \/ fst e = inverse vs) /\
+                   forall q, snd e = Some q -> area RO V az PI (fst e) r + area RO V az PI q r = 4 * PI * r ^ 2)
+         (ptrace vs h).
+Proof. intros V az vs r h ND. exact (history_law V az vs r ND h). Qed.
+Print Assumptions C17_history_inverse_law.
+Example C17_history_ex : ptrace [1; 2; 3]%Z [PInverse; PArea; PInvert; PInverse] =
+  [([1; 2; 3], Some [3; 2; 1]); ([1; 2; 3], None); ([3; 2; 1], None); ([3; 2; 1], Some [1; 2; 3])]%Z.
+Proof. reflexivity. Qed.
 
 (* additivity along the diagonal v0--vk of the polygon v0 :: l1 ++ vk :: l2.  Hypotheses, all about the oracle:
    az_range       every azimuth lies in (-pi, pi]  (the range of arctan2);
